@@ -42,7 +42,7 @@ func init() {
 	allowPanic("(*proxycore.Cluster).reconnect:index:c.hosts[c.currentHostIndex]", "index is reduced modulo len(c.hosts) on the line before")
 	allowPanic("(*proxycore.ResultSet).Row:index:rs.result.Data[i]", "callers index below RowCount() (= len(Data)) or Row(0) after RowCount() > 0")
 	allowPanic("(*proxycore.connPool).leastBusyConn:index:p.conns[idx]", "idx is 0 or a range index over p.conns, read under connsMu with len(p.conns) > 1")
-	allowPanic("(*proxycore.connPool).stayConnected:index:p.conns[idx]", "idx < NumConns by construction of the start-up loop; conns has NumConns elements and is never resized")
+	allowPanicN("(*proxycore.connPool).stayConnected:index:p.conns[idx]", 3, "idx < NumConns by construction of the start-up loop; conns has NumConns elements and is never resized")
 	allowPanic("(*proxycore.internalRequest).OnClose:panic:\"attempted to close request multiple times\"", "a registration is delivered at most one OnClose (C01.closing) into a channel of capacity 1")
 	allowPanic("(*proxycore.internalRequest).OnResult:panic:\"attempted to set result multiple times\"", "a registration is delivered at most one OnResult (C01.handoff: LoadAndDelete) into a channel of capacity 1")
 	allowPanic("(proxycore.Row).ByPos:index:r.resultSet.result.Metadata.Columns[i]", "i comes from columnIndexes, built by ranging over that same Columns slice")
@@ -108,6 +108,17 @@ func checkC17(p *Prog, r *Report) {
 	panicFree(p, r, "C17.panic-free", c17Roots(p), c17Scope(p))
 	c17ErrorOpcode(p, r)
 	c17NilResult(p, r)
+	c17DecodeGuard(p, r)
+	{
+		r.Rule("C17.reencode-error-path", "a request that decodes but cannot be re-encoded after the consistency override is forwarded as received: the nil frame of the failed conversion never reaches the backend connection's writer")
+		for _, fn := range getOverrideRoles(p).reencode {
+			bad := reencodeErrorPath(p, fn)
+			r.check(len(bad) == 0, "C17.reencode-error-path", fn.Name(), p.Pos(fn.Pos()), "", strings.Join(dedupe(bad), " || "))
+		}
+	}
+	c17ListenServiced(p, r)
+	r.Rule("C17.selector-inputs", "the values of a virtual system row are produced from the table's columns, not from the selected ones: the size of the answer is linear in the length of the select list (a few kilobytes of ',*' cannot make the proxy build gigabytes)")
+	selectorInputs(p, r, "C17.selector-inputs")
 	c17NilStore(p, r)
 	c17OffenderOnly(p, r)
 	c17BlockingSend(p, r)
@@ -787,4 +798,133 @@ func c17CrossWrites(p *Prog, r *Report) {
 		})
 	}
 	r.count("cross_connection_write_sites", n)
+}
+
+
+// c17DecodeGuard: the library's value codecs panic on some malformed values (a collection with a
+// negative element count reaches reflect.MakeSlice); values and their declared types come from
+// the other end of a connection.
+func c17DecodeGuard(p *Prog, r *Report) {
+	const rule = "C17.decode-guard"
+	r.Rule(rule, "every call of a value codec's Decode (datacodec.Codec) on bytes received from a peer runs in a function that recovers from a panic of the codec and returns it as an error: a malformed collection value in a system.local/system.peers row cannot take the process down")
+	n := 0
+	var bad []string
+	for _, fn := range p.ScopedFuncs("codecs", "proxy", "proxycore", "astra") {
+		eachCall(fn, func(c ssa.CallInstruction) {
+			cm := c.Common()
+			if !cm.IsInvoke() || cm.Method.Name() != "Decode" {
+				return
+			}
+			rn := namedOf(cm.Value.Type())
+			if rn == nil || rn.Obj().Name() != "Codec" || rn.Obj().Pkg() == nil || !strings.HasSuffix(rn.Obj().Pkg().Path(), "/datacodec") {
+				return
+			}
+			n++
+			guarded := false
+			eachInstr(fn, func(in ssa.Instruction) {
+				d, ok := in.(*ssa.Defer)
+				if !ok {
+					return
+				}
+				var df *ssa.Function
+				if mc, ok := d.Call.Value.(*ssa.MakeClosure); ok {
+					df, _ = mc.Fn.(*ssa.Function)
+				} else {
+					df = d.Call.StaticCallee()
+				}
+				if df == nil || df.Blocks == nil {
+					return
+				}
+				recovers, setsErr := false, false
+				eachInstr(df, func(in2 ssa.Instruction) {
+					if cc, ok := in2.(*ssa.Call); ok {
+						if b, ok := cc.Call.Value.(*ssa.Builtin); ok && b.Name() == "recover" {
+							recovers = true
+						}
+					}
+					if st, ok := in2.(*ssa.Store); ok {
+						if fv, ok := st.Addr.(*ssa.FreeVar); ok {
+							if _, isErr := fv.Type().Underlying().(*types.Pointer).Elem().Underlying().(*types.Interface); isErr {
+								setsErr = true
+							}
+						}
+					}
+				})
+				// the deferred function must dominate the call: it is registered before the decode runs
+				if recovers && setsErr && (d.Block() == c.Block() || d.Block().Dominates(c.Block())) {
+					guarded = true
+				}
+			})
+			if !guarded {
+				bad = append(bad, fmt.Sprintf("%s: %s decodes a value received from a peer without recovering from a panic of the value codec (a list/set/map value with element count -1 panics in reflect.MakeSlice and ends the process)", p.Pos(c.Pos()), fn.Name()))
+			}
+		})
+	}
+	r.count("value_decode_sites", n)
+	r.check(len(bad) == 0 && n > 0, rule, "value codec Decode sites", "", fmt.Sprintf("%d site(s), each under a recover", n), strings.Join(dedupe(bad), " || "))
+}
+
+
+// c17ListenServiced: Cluster.Listen hands a new listener to the control loop with a blocking send,
+// and its callers hold the proxy's session lock.  Every state in which the loop waits must take it.
+func c17ListenServiced(p *Prog, r *Report) {
+	const rule = "C17.listen-serviced"
+	r.Rule(rule, "every blocking select of the cluster's control loop (with and without a control connection) receives from the channel on which Listen() registers listeners: a session created while the control connection is down does not block, with the session lock held, until the backend lets the control connection back")
+	cl := p.Named("proxycore", "Cluster")
+	loop := p.methodOf(cl, "stayConnected")
+	if loop == nil {
+		fatalf("rule %s: Cluster.stayConnected not found", rule)
+	}
+	// the registration channel: a channel field of Cluster whose element type is the listener interface
+	var regF *types.Var
+	if st, ok := cl.Underlying().(*types.Struct); ok {
+		for i := 0; i < st.NumFields(); i++ {
+			if ch, ok := st.Field(i).Type().Underlying().(*types.Chan); ok && typeIs(ch.Elem(), "proxycore", "ClusterListener") {
+				regF = st.Field(i)
+			}
+		}
+	}
+	if regF == nil {
+		fatalf("rule %s: the listener registration channel of Cluster was not found", rule)
+	}
+	var bad []string
+	n := 0
+	scope := []*ssa.Function{loop}
+	for _, h := range withCallees(p, loop, 2) {
+		if h != loop && h.Parent() == nil && recvNamed(h) == cl && onlyCalledFrom(p, h, loop, 3) {
+			scope = append(scope, h)
+		}
+	}
+	for _, f := range scope {
+		eachInstr(f, func(in ssa.Instruction) {
+			sel, ok := in.(*ssa.Select)
+			if !ok || !sel.Blocking {
+				return
+			}
+			// a wait of the loop itself: it has a shutdown arm (ctx.Done())
+			isWait := false
+			takes := false
+			for _, st := range sel.States {
+				if st.Dir != types.RecvOnly {
+					continue
+				}
+				for _, o := range origins(st.Chan) {
+					if c, ok := o.(*ssa.Call); ok && c.Call.IsInvoke() && c.Call.Method.Name() == "Done" {
+						isWait = true
+					}
+				}
+				if fl, _ := loadedField(st.Chan); fl == regF {
+					takes = true
+				}
+			}
+			if !isWait {
+				return
+			}
+			n++
+			if !takes {
+				bad = append(bad, fmt.Sprintf("%s: this wait of the control loop does not receive from %s: Listen() blocks for as long as the loop stays here (while the control connection is down), and its caller holds the proxy's session lock, so every forwarded request of every client waits too", p.Pos(sel.Pos()), regF.Name()))
+			}
+		})
+	}
+	r.check(len(bad) == 0 && n >= 2, rule, "Cluster.stayConnected", p.Pos(loop.Pos()), fmt.Sprintf("%d waits of the loop, each takes new listeners", n), strings.Join(dedupe(bad), " || "))
 }
